@@ -747,9 +747,10 @@ def check_unknown(O, inst, sol, entry, cfg, strict_interior=True):
     N = R.cdim(d)
     sub = {'x': x, 's': s, 'y': y, 'z': z}
     if N and strict_interior:
-        if not q['ts'] > 0.0:
+        # (a margin is only computed to ~1e-16 |s|: converged iterates sit within that of the boundary)
+        if not q['ts'] > -1e-12 * max(1.0, q['ns']):
             O.bad('unknown:s-not-interior', "status unknown but s is not strictly inside the cone (margin %.3g)" % q['ts'], sub)
-        if not q['tz'] > 0.0:
+        if not q['tz'] > -1e-12 * max(1.0, q['nz']):
             O.bad('unknown:z-not-interior', "status unknown but z is not strictly inside the cone (margin %.3g)" % q['tz'], sub)
     pres = max(q['resy'] / q['resy0'], q['resz'] / q['resz0'])
     dres = q['resx'] / q['resx0']
